@@ -543,8 +543,11 @@ def reads : List (Visitor × Kind × Field × ReadHow) := [
   (.BranchBuilder, .IfExp, .f_test, .read),
   (.BranchBuilder, .UnaryOp, .f_op, .read),
   (.BranchBuilder, .UnaryOp, .f_operand, .read),
+  (.CFGBuilder, .AnnAssign, .f_target, .read),
   (.CFGBuilder, .AnnAssign, .f_value, .read),
+  (.CFGBuilder, .Assign, .f_targets, .read),
   (.CFGBuilder, .Assign, .f_value, .read),
+  (.CFGBuilder, .AugAssign, .f_target, .read),
   (.CFGBuilder, .AugAssign, .f_value, .read),
   (.CFGBuilder, .Expr, .f_value, .read),
   (.CFGBuilder, .For, .f_body, .read),
@@ -648,6 +651,27 @@ def generic : List (Visitor × GenericHow) := [
 ]
 
 def tables : Tables := ⟨grammar, kindCat, visits, reads, generic⟩
+
+inductive SkipAtom where | tmpVar | isinstance | other | unanalysable deriving DecidableEq, Repr
+inductive RecordHow where | always | never | guarded (skipWhen : List SkipAtom) deriving DecidableEq, Repr
+
+/-- `CFGBuilder.visit_K`: is the statement appended to a basic block (`bb.statements.append`), and if only under
+    a condition, the literals of the conjunction under which it is NOT (classified) -/
+def records : List (Kind × RecordHow) := [
+  (.AnnAssign, .always),
+  (.Assign, .always),
+  (.AugAssign, .always),
+  (.Break, .never),
+  (.Continue, .never),
+  (.Expr, .guarded [.isinstance, .tmpVar]),
+  (.For, .never),
+  (.FunctionDef, .always),
+  (.If, .never),
+  (.Pass, .never),
+  (.Return, .always),
+  (.While, .never),
+  (.With, .always)
+]
 
 def kindNames : List (String × Kind) := [
   ("AnnAssign", .AnnAssign),
